@@ -358,6 +358,31 @@ func main() {
 			run(out, 0, 0, []msg{m}, "real-language")
 		}
 	}
+	// real packages behind a filler that ends d bytes before a packet boundary: the multi-byte integer fields of the
+	// package (written with WriteUint16 / WriteUint32 / WriteInt32 ...) then begin in the last bytes of a packet
+	for _, ps := range []int{16, 256, 512, 65535} {
+		for k := 1; k <= 2; k++ {
+			for d := 0; d <= 9; d++ {
+				fill := k*(ps-8) - d
+				if fill < 1 {
+					continue
+				}
+				filler := rng.Bytes(fill)
+				cmd := "select 1"
+				lang := &tds.LanguagePackage{Cmd: cmd}
+				encL := []byte{byte(tds.TDS_LANGUAGE), byte(1 + len(cmd)), 0, 0, 0, 0}
+				encL = append(encL, []byte(cmd)...)
+				done := &tds.DonePackage{Status: tds.TDS_DONE_COUNT | tds.TDS_DONE_MORE, TranState: 3, Count: 0x01020304}
+				encD := []byte{byte(tds.TDS_DONE), 0x11, 0, 3, 0, 4, 3, 2, 1}
+				m := msg{ps: ps, typ: int(tds.TDS_BUF_LANG), pkgs: [][][]byte{{filler}, {encL}, {encD}},
+					real: []tds.Package{&chunkPkg{[][]byte{filler}}, lang, done}, mode: d % 2}
+				run(out, []int{0, 5}[k-1], 0, []msg{m}, fmt.Sprintf("real-straddle;d=%d;k=%d", d, k))
+				m2 := msg{ps: ps, typ: int(tds.TDS_BUF_NORMAL), pkgs: [][][]byte{{filler}, {encD}, {encL}},
+					real: []tds.Package{&chunkPkg{[][]byte{filler}}, done, lang}, mode: (d + 1) % 2}
+				run(out, 0, 0, []msg{m2}, fmt.Sprintf("real-straddle;d=%d;k=%d", d, k))
+			}
+		}
+	}
 	// every header type: one-packet, exactly-two-packet and two-and-a-half-packet messages, both call splits, channel 0 and 7
 	for _, typ := range types {
 		for _, ps := range []int{24, 256} {
